@@ -83,6 +83,38 @@ def times(ctx, nf):
         ctx.prove(ctx.all([ctx.eq(getattr(t, FIELDS[j]), ctx.div(snap[u][j], CLK)) for j in range(nf)]), "cpu_times-fields")
 
 
+@harness("C07.many_cpus", quick=[dict(cpus=list(range(12))), dict(cpus=[0, 2, 4, 10, 11])], thorough=[dict(cpus=list(range(12))), dict(cpus=[0, 2, 4, 10, 11]), dict(cpus=list(range(101)))])
+def many_cpus(ctx, cpus):
+    """per-CPU results come in the kernel's order (cpu0, cpu1, ..., cpu9, cpu10, ... -- numeric, with holes where CPUs are off-line), one
+    symbolic CPU at a time, the others concrete and pairwise different; cpu_percent(percpu=True) attributes the load to the same index"""
+    k = simk.Kernel(ctx)
+    which = ctx.choice("which", list(range(len(cpus))))
+    nf = 10
+    a = [ctx.int(f"a{j}", 0, 2**40) for j in range(nf)]
+    rows1 = {c: ([1000 * c + j for j in range(nf)] if i != which else a) for i, c in enumerate(cpus)}
+    state = {"rows": rows1}
+
+    def stat():
+        rows = state["rows"]
+        out = "cpu  " + " ".join(["1"] * nf) + "\n"
+        for c in cpus:
+            out += f"cpu{c} " + " ".join(k.num(x, True) for x in rows[c]) + "\n"
+        return out + "intr 1\nctxt 2\nbtime 1000\n"
+
+    k.files["/proc/stat"] = stat
+    k.sysconf["SC_NPROCESSORS_ONLN"] = len(cpus)
+    with k.installed():
+        per = ctx.guard("cpu_times-fields", psutil.cpu_times, percpu=True)
+        psutil.cpu_percent(percpu=True)
+        # second sample: only the CPU at list position 1 was busy (100 ticks of user time), all others idle for 100 ticks
+        state["rows"] = {c: [x + (100 if (j == 0 and i == 1) or (j == 3 and i != 1) else 0) for j, x in enumerate(rows1[c])] for i, c in enumerate(cpus)}
+        pc = ctx.guard("cpu_percent-formula", psutil.cpu_percent, percpu=True)
+    ctx.prove(len(per) == len(cpus), "cpu_times-shape")
+    for i, c in enumerate(cpus):
+        ctx.prove(ctx.all([ctx.eq(getattr(per[i], FIELDS[j]), ctx.div(rows1[c][j], CLK)) for j in range(nf)]), "cpu_times-fields", detail=f"index {i} must be cpu{c}")
+    ctx.prove(len(pc) == len(cpus) and all(ctx.eq(v, 100 if i == 1 else 0) if not hasattr(v, "round_src") else True for i, v in enumerate(pc)), "cpu_percent-formula", detail=f"{pc}")
+
+
 @harness("C07.percent",
          quick=[dict(nf=f, T=T, unit=u) for f, u in ((7, "sys"), (8, 0), (9, 1), (10, 1), (10, "sys")) for T in TOTALS_Q],
          thorough=[dict(nf=f, T=T, unit=u) for f in (7, 8, 9, 10) for u in ("sys", 0, 1) for T in TOTALS_T])
@@ -252,9 +284,9 @@ def interval(ctx, fn):
             ctx.prove(not k.sleeps, "nonblocking-never-sleeps")
 
 
-@harness("C07.proc_percent", quick=[dict(D=D, ncpu=n) for D in (0, 1, "1/1000") for n in (1, 4)] + [dict(D=1, ncpu=2, modes=m) for m in ("nbn", "bnn", "bbn", "nbb", "nfn", "bfn")],
+@harness("C07.proc_percent", quick=[dict(D=D, ncpu=n) for D in (0, 1, "1/1000") for n in (1, 4)] + [dict(D=1, ncpu=2, modes=m) for m in ("nbn", "bnn", "bbn", "nbb", "nfn", "bfn")] + [dict(D=1, ncpu=2, modes="nnn", threads=True)],
          thorough=[dict(D=D, ncpu=n) for D in (0, 1, "1/1000", "7/2", 86400) for n in (1, 2, 4, 64)] + [dict(D=D, ncpu=n, modes=m) for D in (1, "1/1000") for n in (1, 4) for m in ("nbn", "bnn", "bbn", "nbb", "bnb", "bbb", "nfn", "bfn", "nfb", "nffn")])
-def proc_percent(ctx, D, ncpu, modes="nnn"):
+def proc_percent(ctx, D, ncpu, modes="nnn", threads=False):
     """Process.cpu_percent() = 100 * (CPU seconds used) / (wall seconds elapsed) since the previous call on that object (whether
     that call was blocking or not); a blocking call measures its own interval; 0.0 on the first non-blocking call and when no wall
     time elapsed.  modes: one letter per call, n = cpu_percent(None), b = cpu_percent(interval=D)."""
@@ -284,13 +316,32 @@ def proc_percent(ctx, D, ncpu, modes="nnn"):
 
     k.sleep = sleep
     results, prev = [], None       # prev = (time, sample index) of the end of the previous call
-    with k.installed():
+
+    class _Thread:
+        ident = 1
+        name = "t"
+
+    class _Threading:            # the calls come from different threads (idents 1, 2, 1, ...): one object, one history
+        def __getattr__(self, n):
+            import threading as _t
+            return getattr(_t, n)
+
+        @staticmethod
+        def current_thread():
+            return _Thread
+
+        @staticmethod
+        def get_ident():
+            return _Thread.ident
+
+    with k.installed(extra=[(psutil, "threading", _Threading())] if threads else []):
         p = psutil.Process(77)
         k.now = t0
         for j, m in enumerate(modes):
             if j:
                 k.now = k.now + D
                 state["i"] += 1
+            _Thread.ident = 1 + (j % 2 if threads else 0)
             start = (k.now, state["i"])
             if m == "f":           # a call that fails: the stat record is refused (EACCES) for its duration
                 state["denied"] = True
